@@ -350,6 +350,7 @@ def check(chk):
 def battery():
     from sa.battery import M
     return [
+        M("enable override without a handler priority", LB, "    @event_handler(0)\n    def event_disable(self, **kwargs):", "    def event_enable(self, **kwargs):\n        \"\"\"Enable.\"\"\"\n        del kwargs\n        self.enable()\n\n    @event_handler(0)\n    def event_disable(self, **kwargs):", "EVPRIO-0"),
         M("counter counts while disabled", LB, "        if not self.enabled:\n            return\n\n        count_complete_value =", "        count_complete_value =", "DOM-33"),
         M("sequence advances while disabled", LB, "        del kwargs\n        if not self.enabled:\n            return\n\n        if step is not None and step != self.value:", "        del kwargs\n        if step is not None and step != self.value:", "DOM-33"),
         M("completes twice", LB, "        # if already completed do not complete again\n        if self.completed:\n            return\n", "", "DOM-34"),
